@@ -2,28 +2,401 @@
 C18: the dispatcher starts every accepted task exactly once.
 
 Theorems about the transition system of Model/Dispatcher.lean (`step?`, `run?`: the very functions the driver
-`c18d` fires), for every number of workers, both modes, every number of dispatching threads (the thread id
-of an event is arbitrary) and every interleaving (`∀ evs : List Event`).
+`c18d` fires, both for its canonical schedule and for the trace acceptor), for every number of workers, both
+modes, every number of dispatching threads (the thread id of an event is arbitrary) and every interleaving
+(`∀ evs : List Event`, hidden in `Reachable nw conc s := ∃ evs, run? (init nw conc) evs = some s`).
+
+Reading guide (ghost fields of `St`): `accepted` = tasks whose `dispatch`/`dispatch_blocking` returned `Ok`;
+`started t` = number of calls of the closure of `t`; `startedOn t` = the workers it was called on;
+`ended t` = number of times its body ended; `chan t` = what the `oneshot::Receiver` of `t` sees;
+`joined` = result of `join` once it has returned.
 -/
 import Compio.Lemmas.Dispatcher
+import Compio.Lemmas.DispatcherProgress
+import Compio.Lemmas.DispatcherTrace
 
 namespace Compio.Dispatcher
 
-/-- `func()` of a task is called at most once. -/
+/-- a task sent with `dispatch` (not `dispatch_blocking`) -/
+def St.onWorkers (s : St) (t : Nat) : Prop := s.stat t ≠ .pooled ∧ s.stat t ≠ .poolDone
+
+/-! ### exactly once -/
+
+/-- The closure of a task is called at most once -- on every schedule, with any number of workers and
+dispatching threads. -/
 theorem started_le_one {nw : Nat} {conc : Bool} {s : St} (h : Reachable nw conc s) (t : Nat) :
     s.started t ≤ 1 := by
-  have := (h.tinv.ok t).started
+  have := (h.inv.t.ok t).started
   simp only [St.view] at this
   rw [this]; cases s.stat t <;> simp [startedOf]
   rename_i o; cases o <;> simp
 
-/-- ... and on exactly as many workers as it was started (so: on at most one). -/
-theorem startedOn_length {nw : Nat} {conc : Bool} {s : St} (h : Reachable nw conc s) (t : Nat) :
-    (s.startedOn t).length ≤ s.started t := by
-  have h1 := (h.tinv.ok t).started
-  have h2 := (h.tinv.ok t).startedOn
+/-- Only accepted tasks are ever started (a closure handed back in `DispatchError` never runs). -/
+theorem started_accepted {nw : Nat} {conc : Bool} {s : St} (h : Reachable nw conc s) (t : Nat)
+    (hs : 0 < s.started t) : t ∈ s.accepted ∧ t ∉ s.rejected := by
+  have h1 := (h.inv.t.ok t).started
+  have h2 := (h.inv.t.ok t).acc
+  have h3 := (h.inv.t.ok t).rej
+  simp only [St.view] at h1 h2 h3
+  have hne : s.stat t ≠ .absent := by
+    intro he; rw [h1, he] at hs; simp [startedOf] at hs
+  refine ⟨by simpa using h2.mpr hne, ?_⟩
+  intro hr
+  exact hne (h3 (by simpa using hr))
+
+/-- A task sent with `dispatch` is started on exactly as many workers as it was started: on exactly one
+worker when it was started, on none before. -/
+theorem started_on_one_worker {nw : Nat} {conc : Bool} {s : St} (h : Reachable nw conc s) (t : Nat)
+    (hw : s.onWorkers t) : (s.startedOn t).length = s.started t := by
+  have h1 := (h.inv.t.ok t).started
+  have h2 := (h.inv.t.ok t).startedOn
   simp only [St.view] at h1 h2
-  rw [h1, h2]; cases s.stat t <;> simp [startedOf, startedOnOf]
-  rename_i o; cases o <;> simp
+  rw [h1, h2]
+  cases hst : s.stat t <;> simp [startedOf, startedOnOf]
+  · rename_i o; cases o <;> simp
+  · exact hw.2 hst
+
+/-- Blocking closures run on the pool, never on a worker runtime. -/
+theorem blocking_not_on_worker {nw : Nat} {conc : Bool} {s : St} (h : Reachable nw conc s) (t : Nat)
+    (hb : ¬ s.onWorkers t) : s.startedOn t = [] := by
+  have h2 := (h.inv.t.ok t).startedOn
+  simp only [St.view] at h2
+  rw [h2]
+  cases hst : s.stat t <;> simp [startedOnOf] <;> (exfalso; apply hb; constructor <;> simp [hst])
+
+/-- Completeness: an accepted task that has not been started is still waiting to be (in the queue, spawned
+but not polled yet, or in the blocking pool) -- or it was dropped, and then `join` had been called or a worker
+thread had panicked. -/
+theorem accepted_started_or_waiting {nw : Nat} {conc : Bool} {s : St} (h : Reachable nw conc s) (t : Nat)
+    (ha : t ∈ s.accepted) :
+    s.started t = 1 ∨ t ∈ s.queue ∨ (∃ w, s.stat t = .spawned w ∧ w < s.nw ∧ (s.main w).gone = false) ∨
+      s.stat t = .pooled ∨
+      (s.stat t = .dropped none ∧ (s.sender = false ∨ ∃ w, w < s.nw ∧ (s.main w).failed)) := by
+  have h1 := (h.inv.t.ok t).started
+  have h2 := (h.inv.t.ok t).acc
+  simp only [St.view] at h1 h2
+  have hne : s.stat t ≠ .absent := h2.mp (by simpa using ha)
+  cases hst : s.stat t with
+  | absent => exact (hne hst).elim
+  | queued => right; left; exact (h.inv.t.q.mem t).mpr hst
+  | spawned w =>
+    right; right; left
+    exact ⟨w, rfl, h.inv.w.alive t w (by simp [St.active, hst, TStat.activeOn])⟩
+  | running w k => left; rw [h1, hst]; rfl
+  | done w => left; rw [h1, hst]; rfl
+  | dropped o =>
+    cases o with
+    | none => right; right; right; right; exact ⟨rfl, h.inv.j.anydrop t none hst⟩
+    | some w => left; rw [h1, hst]; rfl
+  | pooled => right; right; right; left; rfl
+  | poolDone => left; rw [h1, hst]; rfl
+
+/-- "`= 1` for every accepted task once the queue is drained (before workers exit)": while the dispatcher
+is alive and no worker thread has panicked, every accepted task that is neither queued nor waiting for its
+first poll has been started exactly once. -/
+theorem started_eq_one_when_settled {nw : Nat} {conc : Bool} {s : St} (h : Reachable nw conc s)
+    (hsend : s.sender = true) (hnf : ∀ w, w < s.nw → ¬ (s.main w).failed) (t : Nat)
+    (ha : t ∈ s.accepted) (hq : t ∉ s.queue) (hsp : ∀ w, s.stat t ≠ .spawned w) (hp : s.stat t ≠ .pooled) :
+    s.started t = 1 := by
+  rcases accepted_started_or_waiting h t ha with h1 | h1 | ⟨w, h1, _⟩ | h1 | ⟨_, h1 | ⟨w, hw, hf⟩⟩
+  · exact h1
+  · exact (hq h1).elim
+  · exact (hsp w h1).elim
+  · exact (hp h1).elim
+  · rw [hsend] at h1; cases h1
+  · exact (hnf w hw hf).elim
+
+/-! ### results -/
+
+/-- A value in the channel of `t` is the value of `t`'s own body, which ended exactly once and sent exactly
+once. -/
+theorem value_is_own_result {nw : Nat} {conc : Bool} {s : St} (h : Reachable nw conc s) (t v : Nat)
+    (hv : s.chan t = .value v) : (s.body t).out = .ok v ∧ s.ended t = 1 ∧ s.sent t = 1 := by
+  obtain ⟨_, _, h3, h4, h5, _, _⟩ := h.inv.t.ok t
+  simp only [St.view] at h3 h4 h5
+  cases hst : s.stat t <;> simp [hst, chanOk, hv] at h5
+  all_goals
+    cases ho : (s.body t).out <;> simp [ho] at h5
+    subst h5
+    refine ⟨rfl, by rw [h3, hst]; rfl, by rw [h4, hst]; simp [sentOf, ho, TStat.isDone]⟩
+
+/-- When a task runs to completion its result reaches its own receiver (unless the caller dropped the
+receiver). -/
+theorem completed_result_delivered {nw : Nat} {conc : Bool} {s : St} (h : Reachable nw conc s) (t v : Nat)
+    (hd : (s.stat t).isDone = true) (ho : (s.body t).out = .ok v) :
+    s.chan t = .value v ∨ s.chan t = .closed := by
+  have h5 := (h.inv.t.ok t).chan
+  simp only [St.view] at h5
+  cases hst : s.stat t <;> simp [hst, TStat.isDone] at hd <;> simp [hst, chanOk, ho] at h5 <;>
+    (rcases h5 with h5 | h5 <;> simp [h5])
+
+/-- A task whose body panicked is reported as cancelled (the panic is contained in the task). -/
+theorem panicked_task_cancelled {nw : Nat} {conc : Bool} {s : St} (h : Reachable nw conc s) (t : Nat)
+    (hd : (s.stat t).isDone = true) (ho : (s.body t).out = .panic) :
+    s.chan t = .cancelled ∨ s.chan t = .closed := by
+  have h5 := (h.inv.t.ok t).chan
+  simp only [St.view] at h5
+  cases hst : s.stat t <;> simp [hst, TStat.isDone] at hd <;> simp [hst, chanOk, ho] at h5 <;>
+    (rcases h5 with h5 | h5 <;> simp [h5])
+
+/-- A receiver is cancelled only when the task object was dropped unfinished or its body panicked: never
+after the body returned. -/
+theorem cancelled_not_completed {nw : Nat} {conc : Bool} {s : St} (h : Reachable nw conc s) (t v : Nat)
+    (hc : s.chan t = .cancelled) (ho : (s.body t).out = .ok v) : (s.stat t).isDone = false := by
+  have h5 := (h.inv.t.ok t).chan
+  simp only [St.view] at h5
+  cases hst : s.stat t <;> simp [TStat.isDone] <;> simp [hst, chanOk, ho, hc] at h5
+
+/-! ### join -/
+
+/-- `join` returns only after all worker threads have finished. -/
+theorem join_after_all_workers {nw : Nat} {conc : Bool} {s : St} (h : Reachable nw conc s)
+    (r : Option Nat) (hj : s.joined = some r) : ∀ w, w < s.nw → (s.main w).gone = true :=
+  fun _ hw => gone_of_allGone (h.inv.j.joined r hj).2.1 hw
+
+/-- If the dispatcher is joined first, the receiver observes cancellation instead of hanging: once `join`
+has returned, no receiver of a task sent with `dispatch` is pending (the sender half was dropped together
+with the task object, or the result was sent). -/
+theorem no_receiver_pending_after_join {nw : Nat} {conc : Bool} {s : St} (h : Reachable nw conc s)
+    (r : Option Nat) (hj : s.joined = some r) (t : Nat) (hw : s.onWorkers t) : s.chan t ≠ .pending := by
+  intro hp
+  obtain ⟨hsend, hall, _⟩ := h.inv.j.joined r hj
+  have h5 := (h.inv.t.ok t).chan
+  simp only [St.view] at h5
+  have hnorx : anyRx s = false := by
+    rw [anyRx_false_iff]
+    intro w hw
+    have := gone_of_allGone hall hw
+    cases hm : s.main w <;> simp [hm, Main.gone] at this <;> rfl
+  cases hst : s.stat t with
+  | absent => simp [hst, chanOk, hp] at h5
+  | queued =>
+    -- the channel has been freed
+    have := (h.inv.t.q.mem t).mpr hst
+    rw [h.inv.j.freedq hsend hnorx] at this
+    cases this
+  | spawned w =>
+    have := h.inv.w.alive t w (by simp [St.active, hst, TStat.activeOn])
+    rw [gone_of_allGone hall this.1] at this
+    cases this.2
+  | running w k =>
+    have := h.inv.w.alive t w (by simp [St.active, hst, TStat.activeOn])
+    rw [gone_of_allGone hall this.1] at this
+    cases this.2
+  | done w => simp [hst, chanOk, hp] at h5; cases ho : (s.body t).out <;> simp [ho] at h5
+  | dropped o => simp [hst, chanOk, hp] at h5
+  | pooled => exact hw.1 hst
+  | poolDone => exact hw.2 hst
+
+/-- A worker panic is re-raised by `join`: it returns `Ok` only if every worker thread finished normally,
+and otherwise resumes the panic of the first panicked worker in thread order. -/
+theorem join_reraises_worker_panic {nw : Nat} {conc : Bool} {s : St} (h : Reachable nw conc s)
+    (r : Option Nat) (hj : s.joined = some r) :
+    (r = none → ∀ w, w < s.nw → s.main w = .exited) ∧
+    (∀ p, r = some p → ∃ w, w < s.nw ∧ s.main w = .dead p ∧ ∀ w', w' < w → s.main w' = .exited) := by
+  obtain ⟨_, hall, hr⟩ := h.inv.j.joined r hj
+  have hex : ∀ w, w < s.nw → (∀ q, s.main w ≠ .dead q) → s.main w = .exited := by
+    intro w hw hnd
+    have := gone_of_allGone hall hw
+    cases hm : s.main w with
+    | exited => rfl
+    | dead q => exact (hnd q hm).elim
+    | _ => simp [hm, Main.gone] at this
+  constructor
+  · intro hn w hw
+    exact hex w hw (firstDead_none (by rw [← hr, hn]) w hw)
+  · intro p hp
+    obtain ⟨w, hw, hd, hlt⟩ := firstDead_some (s := s) (p := p) (by rw [← hr, hp])
+    exact ⟨w, hw, hd, fun w' hw' => hex w' (by omega) (hlt w' hw')⟩
+
+/-- ... and a panicked worker thread makes `join` panic. -/
+theorem worker_panic_makes_join_panic {nw : Nat} {conc : Bool} {s : St} (h : Reachable nw conc s)
+    (r : Option Nat) (hj : s.joined = some r) (w p : Nat) (hw : w < s.nw) (hd : s.main w = .dead p) :
+    r ≠ none := by
+  intro hn
+  have := (join_reraises_worker_panic h r hj).1 hn w hw
+  rw [hd] at this; cases this
+
+/-! ### sequential mode -/
+
+/-- Sequential mode: a worker never has two tasks between spawn and completion. -/
+theorem sequential_no_overlap {nw : Nat} {s : St} (h : Reachable nw false s) (t t' w : Nat)
+    (h1 : s.active t w) (h2 : s.active t' w) : t = t' :=
+  h.inv.w.uniq h.nw_conc.2 t t' w h1 h2
+
+/-- Sequential mode: the worker loop does not receive the next task while one is in its executor. -/
+theorem sequential_busy_worker_not_receiving {nw : Nat} {s : St} (h : Reachable nw false s) (t w : Nat)
+    (h1 : s.active t w) : s.main w ≠ .idle := by
+  intro hi
+  rcases h.inv.w.seq h.nw_conc.2 t w h1 with h2 | ⟨p, h2⟩ <;> simp [hi] at h2
+
+/-- Sequential mode: when `join` returns `Ok`, every task accepted by `dispatch` has been started once, has
+finished, and its result (or the cancellation caused by its own panic) is at its receiver. -/
+theorem sequential_all_finished_at_join {nw : Nat} {s : St} (h : Reachable nw false s)
+    (hj : s.joined = some none) (t : Nat) (ha : t ∈ s.accepted) (hw : s.onWorkers t) :
+    s.started t = 1 ∧ s.ended t = 1 ∧ (∃ w, w < s.nw ∧ s.startedOn t = [w]) ∧
+      (∀ v, (s.body t).out = .ok v → s.chan t = .value v ∨ s.chan t = .closed) := by
+  obtain ⟨hsend, hall, _⟩ := h.inv.j.joined none hj
+  have hexit := (join_reraises_worker_panic h none hj).1 rfl
+  obtain ⟨h1, h2, h3, _, h5, h6, _⟩ := h.inv.t.ok t
+  simp only [St.view] at h1 h2 h3 h5 h6
+  have hne : s.stat t ≠ .absent := h6.mp (by simpa using ha)
+  have hpend := no_receiver_pending_after_join h none hj t hw
+  cases hst : s.stat t with
+  | absent => exact (hne hst).elim
+  | queued => simp [hst, chanOk] at h5; rcases h5 with h5 | h5
+              · exact (hpend h5).elim
+              · exfalso
+                have hnorx : anyRx s = false := by
+                  rw [anyRx_false_iff]; intro w hw; rw [hexit w hw]; rfl
+                have := (h.inv.t.q.mem t).mpr hst
+                rw [h.inv.j.freedq hsend hnorx] at this; cases this
+  | spawned w =>
+    exfalso
+    have := h.inv.w.alive t w (by simp [St.active, hst, TStat.activeOn])
+    rw [hexit w this.1] at this; cases this.2
+  | running w k =>
+    exfalso
+    have := h.inv.w.alive t w (by simp [St.active, hst, TStat.activeOn])
+    rw [hexit w this.1] at this; cases this.2
+  | done w =>
+    refine ⟨by rw [h1, hst]; rfl, by rw [h3, hst]; rfl, ?_, ?_⟩
+    · -- the worker it ran on is one of the dispatcher's workers
+      exact ⟨w, h.inv.x t w (by simp [hst, widx]), by rw [h2, hst]; rfl⟩
+    · intro v hv
+      exact completed_result_delivered h t v (by simp [hst, TStat.isDone]) hv
+  | dropped o =>
+    exfalso
+    obtain ⟨w, hw, hf⟩ := h.inv.j.seqdrop h.nw_conc.2 t o hst
+    rw [hexit w hw] at hf; exact hf
+  | pooled => exact (hw.1 hst).elim
+  | poolDone => exact (hw.2 hst).elim
+
+/-! ### bounded progress: the receiver resolves -/
+
+/-- once the `Dispatcher` has been consumed by `join`, no new work can enter -/
+theorem no_dispatch_after_join {s s' : St} {e : Event} (hsend : s.sender = false)
+    (hs : step? s e = some s') : e.external = false ∧ s'.sender = false := by
+  cases e with
+  | dispatch d t b => obtain ⟨h1, _⟩ := dispatch?_some hs; rw [hsend] at h1; cases h1
+  | dispatchBlocking d t b ok => obtain ⟨h1, _⟩ := dispatchBlocking?_some hs; rw [hsend] at h1; cases h1
+  | runBlocking t =>
+    obtain ⟨_, hc | hc⟩ := runBlocking?_some hs
+    · obtain ⟨v, _, rfl⟩ := hc; exact ⟨rfl, hsend⟩
+    · obtain ⟨_, rfl⟩ := hc; exact ⟨rfl, hsend⟩
+  | rxDrop t => obtain ⟨_, _, rfl⟩ := rxDrop?_some hs; exact ⟨rfl, hsend⟩
+  | recv w t => obtain ⟨_, _, _, rfl⟩ := recv?_some hs; exact ⟨rfl, hsend⟩
+  | poll w t =>
+    obtain ⟨_, _, hc | hc | hc | hc⟩ := poll?_some hs
+    · obtain ⟨_, rfl⟩ := hc; exact ⟨rfl, hsend⟩
+    · obtain ⟨k, _, rfl⟩ := hc; exact ⟨rfl, hsend⟩
+    · obtain ⟨v, _, _, rfl⟩ := hc; exact ⟨rfl, hsend⟩
+    · obtain ⟨_, _, rfl⟩ := hc; exact ⟨rfl, hsend⟩
+  | die w p => obtain ⟨_, _, rfl⟩ := die?_some hs; exact ⟨rfl, hsend⟩
+  | reap w => obtain ⟨p, _, _, rfl⟩ := reap?_some hs; exact ⟨rfl, by simpa using hsend⟩
+  | joinStart => obtain ⟨h1, _⟩ := joinStart?_some hs; rw [hsend] at h1; cases h1
+  | exitLoop w => obtain ⟨_, _, _, _, rfl⟩ := exitLoop?_some hs; exact ⟨rfl, hsend⟩
+  | teardown w => obtain ⟨_, _, rfl⟩ := teardown?_some hs; exact ⟨rfl, hsend⟩
+  | joinReturn => obtain ⟨_, _, _, rfl⟩ := joinReturn?_some hs; exact ⟨rfl, hsend⟩
+
+theorem run_after_join_internal {s s' : St} {evs : List Event} (hsend : s.sender = false)
+    (hr : run? s evs = some s') : ∀ e, e ∈ evs → e.external = false := by
+  induction evs generalizing s with
+  | nil => intro e he; cases he
+  | cons a es ih =>
+    obtain ⟨s1, h1, h2⟩ := run?_cons hr
+    obtain ⟨ha, hs1⟩ := no_dispatch_after_join hsend h1
+    intro e he
+    rcases List.mem_cons.mp he with rfl | he'
+    · exact ha
+    · exact ih hs1 h2 e he'
+
+/-- "The receiver resolves" as bounded progress.  From any reachable state in which `join` has been called:
+(1) until `join` returns, some event is enabled (no deadlock) -- in sequential mode provided no task body hangs
+forever, because `join` then really waits for it; (2) every continuation of the schedule has at most `rank s`
+events (no infinite run, explicit bound); (3) when `join` has returned, no receiver of a dispatched task is
+pending.  So after at most `rank s` further events of any maximal schedule every receiver has resolved, to
+the value or to cancellation. -/
+theorem receiver_resolves_bounded {nw : Nat} {conc : Bool} {s : St} (h : Reachable nw conc s)
+    (hsend : s.sender = false) :
+    (s.joined = none → (s.conc = false → ∀ t, (s.body t).out ≠ .never) →
+        ∃ e, e.external = false ∧ (step? s e).isSome = true) ∧
+    (∀ evs s', run? s evs = some s' → evs.length ≤ rank s) ∧
+    (∀ r, s.joined = some r → ∀ t, s.onWorkers t → s.chan t ≠ .pending) := by
+  refine ⟨fun hj ht => join_never_stuck h.inv hsend hj ht, ?_, fun r hj t => no_receiver_pending_after_join h r hj t⟩
+  intro evs s' hr
+  have := internal_run_bounded h.inv (run_after_join_internal hsend hr) hr
+  omega
+
+/-- Before `join`, too, work that is already in the system takes a bounded number of events: any schedule
+segment without new `dispatch` calls is at most `rank s` long. -/
+theorem internal_events_bounded {nw : Nat} {conc : Bool} {s s' : St} (h : Reachable nw conc s)
+    (evs : List Event) (hint : ∀ e, e ∈ evs → e.external = false) (hr : run? s evs = some s') :
+    evs.length ≤ rank s := by
+  have := internal_run_bounded h.inv hint hr
+  omega
+
+/-! ### the tie to the driver -/
+
+/-- Whatever the canonical scheduler of `c18d` prints (unless it printed `model-stuck`) is read off a
+reachable state. -/
+theorem driver_schedule_reachable {nw : Nat} {conc : Bool} {d : Sched} (h : d.Valid nw conc)
+    (hb : d.bad = false) : Reachable nw conc d.s := h.reachable hb
+
+/-- `accept` of the trace acceptor certifies a schedule of the model for the recorded history. -/
+theorem accept_certifies_schedule {nw : Nat} {conc : Bool} {h : List Obs} (ha : accepts nw conc h = true) :
+    ∃ s, Reachable nw conc s ∧ run? (init nw conc) (witness nw conc h) = some s := by
+  obtain ⟨s, hs⟩ := accepts_sound ha
+  exact ⟨s, ⟨_, hs⟩, hs⟩
+
+/-! ### non-vacuity: concrete schedules -/
+
+/-- two workers, concurrent mode: task 1 (one suspension, returns 7) and task 2 (panics) on different
+workers; join after both ended -/
+def exA : List Event :=
+  [.dispatch 0 1 ⟨1, .ok 7⟩, .dispatch 1 2 ⟨0, .panic⟩, .recv 0 1, .recv 1 2, .poll 0 1, .poll 1 2, .poll 1 2,
+   .poll 0 1, .poll 0 1, .joinStart, .exitLoop 0, .exitLoop 1, .teardown 0, .teardown 1, .joinReturn]
+
+example : (run? (init 2 true) exA).map (fun s => (s.joined, s.chan 1, s.chan 2)) =
+    some (some none, .value 7, .cancelled) := by decide
+example : (run? (init 2 true) exA).map (fun s => (s.started 1, s.startedOn 1, s.started 2, s.ended 2)) =
+    some (1, [0], 1, 1) := by decide
+
+/-- one worker, sequential mode: the worker thread panics (payload 9) while it awaits task 1; task 2 stays in
+the queue until `join` frees the channel; a later dispatch (task 3) is refused; `join` resumes the panic -/
+def exB : List Event :=
+  [.dispatch 0 1 ⟨0, .never⟩, .dispatch 0 2 ⟨0, .ok 5⟩, .recv 0 1, .poll 0 1, .die 0 9, .reap 0,
+   .dispatch 0 3 ⟨0, .ok 1⟩, .joinStart, .joinReturn]
+
+example : (run? (init 1 false) exB).map (fun s => (s.joined, s.chan 1, s.chan 2)) =
+    some (some (some 9), .cancelled, .cancelled) := by decide
+example : (run? (init 1 false) exB).map (fun s => (s.started 2, s.accepted, s.rejected)) =
+    some (0, [1, 2], [3]) := by decide
+
+/-- the hypotheses of `sequential_all_finished_at_join` are satisfiable: sequential mode, two tasks on one
+worker, `join` returns `Ok` -/
+def exC : List Event :=
+  [.dispatch 0 1 ⟨0, .ok 3⟩, .dispatch 1 2 ⟨1, .ok 4⟩, .joinStart, .recv 0 1, .poll 0 1, .poll 0 1, .recv 0 2,
+   .poll 0 2, .poll 0 2, .poll 0 2, .exitLoop 0, .teardown 0, .joinReturn]
+
+example : (run? (init 1 false) exC).map (fun s => (s.joined, s.chan 1, s.chan 2, s.startedOn 2)) =
+    some (some none, .value 3, .value 4, [0]) := by decide
+
+/-- sequential mode: a second `recv` while the worker awaits a task is not a schedule -/
+example : run? (init 1 false) [.dispatch 0 1 ⟨0, .ok 3⟩, .dispatch 0 2 ⟨0, .ok 4⟩, .recv 0 1, .recv 0 2] = none := by
+  decide
+
+/-- the same item cannot be received twice (MPMC exactly-once) -/
+example : run? (init 2 true) [.dispatch 0 1 ⟨0, .ok 3⟩, .recv 0 1, .recv 1 1] = none := by decide
+
+/-- `join` cannot return while a worker is still running -/
+example : run? (init 1 true) [.joinStart, .joinReturn] = none := by decide
+
+/-- the trace acceptor on small histories: a clean run is accepted, a task started twice is not -/
+example : accepts 2 true [.intent 1 ⟨1, .ok 7⟩ false, .acc 1, .start 0 1, .fin 1, .got 1 7, .joinCall,
+    .joinRet none, .alive 0] = true := by decide
+example : accepts 2 true [.intent 1 ⟨1, .ok 7⟩ false, .acc 1, .start 0 1, .start 1 1] = false := by decide
+example : accepts 2 false [.intent 1 ⟨0, .ok 7⟩ false, .intent 2 ⟨0, .ok 8⟩ false, .acc 1, .acc 2, .start 0 1,
+    .start 0 2] = false := by decide
 
 end Compio.Dispatcher
